@@ -512,11 +512,17 @@ class ExprBuilder(ast.NodeTransformer):
         # conditional and short-circuit expressions) run before the rest of the
         # enclosing expression. To keep Python's left-to-right evaluation order, operands
         # with side effects that come before such an operand are bound to temporaries.
+        # The same goes for operands mentioning a variable that a later `:=` rebinds.
         if isinstance(node, ast.expr):
             operands = [c for c in ast.iter_child_nodes(node) if isinstance(c, ast.expr)]
             built_early = [i for i, c in enumerate(operands) if is_built_early(c)]
             if built_early:
-                bind = {id(c) for c in operands[: built_early[-1]] if has_call(c)}
+                last = built_early[-1]
+                bind = {
+                    id(c)
+                    for i, c in enumerate(operands[:last])
+                    if has_call(c) or mentions_var(c, walrus_targets(operands[i + 1 :]))
+                }
                 if bind:
                     return self._visit_binding_operands(node, bind)
         # For all other expressions, just recurse deeper with the node transformer
@@ -793,6 +799,26 @@ def is_built_early(node: ast.AST) -> bool:
 def has_call(node: ast.AST) -> bool:
     """Checks if an expression contains a call, i.e. might have a side effect."""
     return bool(find_nodes(lambda n: isinstance(n, ast.Call), node))
+
+
+def walrus_targets(nodes: list[ast.expr]) -> set[str]:
+    """The variables assigned by `:=` expressions inside the given expressions."""
+    skip: set[type[ast.AST]] = {ast.ListComp, ast.GeneratorExp, ast.Lambda}
+    return {
+        n.target.id
+        for node in nodes
+        for n in find_nodes(lambda n: isinstance(n, ast.NamedExpr), node, skip)
+        if isinstance(n, ast.NamedExpr)
+    }
+
+
+def mentions_var(node: ast.AST, names: set[str]) -> bool:
+    """Checks if an expression reads or assigns one of the given variables."""
+    if not names:
+        return False
+    return bool(
+        find_nodes(lambda n: isinstance(n, ast.Name) and n.id in names, node)
+    )
 
 
 def is_illegal_in_list_comp(node: ast.AST) -> bool:
